@@ -72,6 +72,17 @@ def start_monitor():
                 continue
             CURRENT["hits"] += 1
             CURRENT["t0"] = now
+            # note where it spins now: the code under test may swallow the exception (a `finally` that carries on, an
+            # `except BaseException`), the observation must not depend on the thread dying of it
+            fr = sys._current_frames().get(cur.real.ident)
+            where = None
+            while fr is not None and where is None:
+                fn = fr.f_code.co_filename
+                if "/Pyro5/" in fn:
+                    where = "%s:%s" % (fn.rsplit("/", 1)[-1], fr.f_code.co_name)
+                fr = fr.f_back
+            sc.busy_loops.append((cur.name, where))
+            fr = None
             ctypes.pythonapi.PyThreadState_SetAsyncExc(ctypes.c_ulong(cur.real.ident), ctypes.py_object(S.BusyLoop))
 
     th = threading.Thread(target=watch, name="busy-loop-monitor", daemon=True)
@@ -257,6 +268,13 @@ class World:
                     else:
                         ctx.violations.append({"kind": "busy-loop", "key": t.died[2], "msg": "thread %s of the code under test ran for %.0f "
                                                "wall seconds without reaching a yield point (spinning in %s)" % (t.name, BUSY_AFTER_S, t.died[2])})
+            for name, where in sched.busy_loops:
+                if not any(v["kind"] == "busy-loop" for v in ctx.violations) and harness is None:
+                    if where is None:
+                        harness = "busy loop outside Pyro5 code in thread %s" % name
+                    else:
+                        ctx.violations.append({"kind": "busy-loop", "key": where, "msg": "thread %s of the code under test ran for %.0f "
+                                               "wall seconds without reaching a yield point (spinning in %s)" % (name, BUSY_AFTER_S, where)})
             leaked = sched.kill_all()
             seams.uninstall()
             sched.dispose()
